@@ -434,7 +434,8 @@ def json_doc_obligations(ctx, result, spec_items, sort, interp_unbound):
             goal = eq_z3(got, want) if not isinstance(got, FV) else z3.BoolVal(False)
         else:
             if_defined = isinstance(want, tuple) and len(want) == 2 and want[0] == "if-defined"
-            if if_defined:
+            nocase = isinstance(want, tuple) and len(want) == 2 and want[0] == "severity-up-to-case"
+            if if_defined or nocase:
                 want = want[1]
 
             def same(a, b):
@@ -442,6 +443,8 @@ def json_doc_obligations(ctx, result, spec_items, sort, interp_unbound):
                     return True
                 if b is None and if_defined:
                     return True
+                if nocase:
+                    return isinstance(a, str) and isinstance(b, str) and a.upper() == b.upper()
                 if isinstance(b, Fraction):
                     import struct
 
